@@ -86,6 +86,10 @@ def rand_inputs(rng, n, allow_ints=True):
         if ints and rng.random() < .6:
             values.append(rng.randint(-50, 50))
             kinds.append("i")
+        elif rng.random() < .12:
+            # a list is ONE wire value (only tuples are spread over wires)
+            values.append(rng.choice([[i], [], [1, 2, 3], [[i]], ["a", i]]))
+            kinds.append("t")
         else:
             values.append(Token("in", i, ()))
             kinds.append("t")
@@ -108,7 +112,10 @@ def rand_plan(rng, dom, kinds, nsteps, tag="", max_width=8):
             name = "{}{}{}_{}{}".format(rng.choice(LETTERS), tag, counter,
                                         n_in, n_out)
             counter += 1
-            step = ("box", off, n_in, n_out, token_function(name, n_out), name)
+            # the printed name of a box does not identify it: several boxes of
+            # one diagram may share a name and arity and differ in their function
+            shown = name if rng.random() < .6 else "op{}{}".format(n_in, n_out)
+            step = ("box", off, n_in, n_out, token_function(name, n_out), shown)
             kinds[off:off + n_in] = ["t"] * n_out
         elif r < .58 and width >= 2:
             off = rng.randint(0, width - 2)
